@@ -179,7 +179,9 @@ class AsynctelnetTransport(AsyncTransport):
         self._pre_open_closing_log(closing=True)
 
         if self.stdin:
-            self.stdin.close()
+            with suppress(OSError):
+                # the connection may already be broken; we are closing anyway
+                self.stdin.close()
 
             with suppress(AttributeError):
                 # wait closed only in 3.7+... unclear if we should be doing something else for 3.6?
